@@ -21,7 +21,7 @@ ASSUMPTIONS = ['TT(None) (the documented empty placeholder) has no dense value a
 REQUIRED_REACH = ['_tt_base:TT.__init__', '_tt_base:TT.set_core', '_tt_base:TT.reduce_dims', '_tt_base:TT.__getitem__', '_tt_base:TT.round', '_extras:reshape', '_extras:permute',
                   '_dmrg:dmrg_matvec_python', '_dmrg:dmrg_hadamard_python', '_amen:_amen_mm_python', 'solvers:_amen_solve_python', '_division:amen_divide', 'interpolate:dmrg_cross',
                   'interpolate:function_interpolate', 'manifold:riemannian_projection', '_tt_base:TT.to_qtt', '_tt_base:TT.qtt_to_tens', '_extras:cat', '_extras:pad']
-REQUIRED_COUNTS = {'copy_then_inplace_histories': 100, 'argument_alias_histories': 50, 'mixed_dtype_histories': 10, 'wf_checks': 2000, 'quiescent_points': 1000, 'step_returned': 500, 'op:set_core': 5, 'op:reduce_dims': 5}
+REQUIRED_COUNTS = {'copy_then_inplace_histories': 100, 'argument_alias_histories': 50, 'mixed_dtype_histories': 10, 'wf_checks': 2000, 'quiescent_points': 1000, 'step_returned': 500, 'op:set_core': 5, 'op:reduce_dims': 5, 'raised_then_wf_checked': 5}
 MIN_NONTRIVIAL = {'quick': 200, 'thorough': 2000}
 CASE_TIMEOUT = {'quick': 240, 'thorough': 600}
 MAX_TIMEOUT_FRACTION = 0.02
